@@ -259,3 +259,28 @@ func (d *dumper) val(v reflect.Value, path string) {
 		d.sb.WriteString("?" + v.Kind().String())
 	}
 }
+
+// Field returns the (possibly unexported) field of the struct pointed to by obj as an
+// interface value; ok=false if there is no such field.
+func Field(obj any, name string) (val any, ok bool) {
+	v := reflect.ValueOf(obj)
+	for v.Kind() == reflect.Ptr || v.Kind() == reflect.Interface {
+		if v.IsNil() {
+			return nil, false
+		}
+		v = v.Elem()
+	}
+	if v.Kind() != reflect.Struct {
+		return nil, false
+	}
+	f := v.FieldByName(name)
+	if !f.IsValid() {
+		return nil, false
+	}
+	if f.CanAddr() {
+		f = reflect.NewAt(f.Type(), unsafe.Pointer(f.UnsafeAddr())).Elem()
+	} else {
+		f = unRO(f)
+	}
+	return f.Interface(), true
+}
